@@ -50,6 +50,17 @@ CLAIMED = {
          "length 4 quick / 5 thorough (+duplicates) on every hashable scheme, with the four clauses evaluated through the Lean spec "
          "whenever model and code differ."),
    design="§7 C08", technique="Lean 4 proof (contextual-equivalence invariant of the stack walk) + correspondence"),
+ "C14": dict(
+   level="proof",
+   text=("Lean 4 theorems (decide +kernel) over the class table regenerated from /repo on every run (MRO, defining class, origin "
+         "and guard shape of every rich-comparison dunder of every Version subclass): for every ordered pair of unrelated version "
+         "classes, every value, the four ordering operators raise TypeError, == is False and != is True, because both the method "
+         "and the reflected method decline on the operand's class alone; a foreign version in a constraint or range is rejected by "
+         "the isinstance guard. Adding a scheme or an operator re-runs the theorem over the new matrix."),
+   note=("Trusted: Lean kernel; the model of CPython's rich-comparison dispatch (Univers/Py/Dispatch.lean); the translator's guard-shape "
+         "extraction (AST), tied to behaviour by an exhaustive correspondence over the full class-pair matrix x six operators x sampled "
+         "values, and foreign membership tests for every scheme."),
+   design="§7 C14", technique="Lean 4 proof by kernel decision over the regenerated class table + exhaustive class-matrix correspondence"),
 }
 
 NOT_YET = "machinery for this property is not built yet at this commit (planned: Lean 4 proof + correspondence, see DESIGN.md §7)"
